@@ -9,6 +9,8 @@ import (
 	"os"
 	"time"
 
+	"github.com/akrylysov/pogreb"
+
 	"verif/harness/crashfs"
 	"verif/harness/h"
 )
@@ -62,6 +64,9 @@ func main() {
 	sessions := fl.Bool("sessions", false, "restart-centred patterns (compaction-only sessions, equal-count sessions, bursts after reopen)")
 	compactHeavy := fl.Bool("compactheavy", false, "fill several segments with live and dead records, then compact (promotions overflow the current segment)")
 	oneClass := fl.Bool("oneclass", false, "seq: all keys share one low-bit class (very long bucket chains)")
+	failOpen := fl.Bool("failopen", false, "a failing Open attempt (injected fs error) before some images are reopened")
+	noPin := fl.Bool("nopin", false, "seq: every second program runs with pogreb's own random hash seeds")
+	holdBG := fl.Bool("holdbg", false, "stress: park the background compaction at its first yield point and call Close meanwhile")
 	in := fl.String("in", "", "program file (ndjson) to replay instead of random programs")
 	fl.Parse(os.Args[2:])
 	t0 := time.Now()
@@ -105,7 +110,7 @@ func main() {
 				rs = *rseed
 			}
 			r := h.NewRunner(rec, p, h.RunParams{Mode: *mode, Seed: rs, Depth: *depth, Twice: *twice, PLimit: *plimit, OnlyClosed: *onlyClosed,
-				Probe: *probe, FullEvery: 40})
+				Probe: *probe, FullEvery: 40, FailOpen: *failOpen})
 			if *mode == "seq" {
 				defer r.CloseAndDecode()
 			}
@@ -119,6 +124,7 @@ func main() {
 			tot["distinct_images"] += r.Distinct
 			tot["nested_instants"] += r.Nested
 			tot["epochs"] += r.Epochs
+			tot["failed_opens"] += r.FailedOpens
 			tot["ops"] += r.Ops
 			tot["programs"]++
 			if i < 2 {
@@ -165,7 +171,7 @@ func main() {
 				cfg.MaxSeg = []uint32{1024, 2048, 4096}[rng.Intn(3)]
 			}
 			var freshPool []string
-			if *sessions {
+			if *sessions || *scans {
 				freshPool = ks.InClass(bits, class1, 600)
 			}
 			p := h.GenProgram(rng, fmt.Sprintf("seq-%s-%d-%d", *fsname, *seed, i), cfg, h.GenOpts{Fresh: freshPool, Sessions: *sessions,
@@ -176,8 +182,17 @@ func main() {
 				p = h.EmptyingProgram(rng, p.ID+"-empty", cfg, keys)
 			}
 			p.Cfg.Strict = *strict
+			if *noPin && i%2 == 1 {
+				// a random hash seed per database, as in production (the engineered classes do not apply then)
+				pogreb.VerifPinnedSeed = nil
+			} else if *noPin {
+				h.PinSeed(ks.Seed)
+			}
 			var r *h.Runner
 			rp := h.RunParams{Mode: "seq", Seed: *seed + int64(i), Probe: len(keys) > 16, FullEvery: 25, Alt: *alt, Hold: *hold}
+			if pogreb.VerifPinnedSeed == nil {
+				rp.HashSeed = 1 // recorded as "not pinned"
+			}
 			if *fsname == "crashfs" {
 				r = h.NewRunner(rec, p, rp)
 			} else {
@@ -218,7 +233,11 @@ func main() {
 				Dir:     fmt.Sprintf("%s/st-%d-%d-%d", *dir, os.Getpid(), *seed, i),
 				Workers: 2 + rng.Intn(*workers-1), OpsEach: *nops, Keys: ks.InClass(1, uint32(i), *nkeys),
 				Maint: *maint, CloseMid: *closeMid && rng.Intn(2) == 0, BG: *bg && rng.Intn(2) == 0, Prefill: rng.Intn(2 * *nkeys),
-				Seed: *seed*7 + int64(i), MaxSeg: []uint32{1024, 4096, 1 << 20}[rng.Intn(3)], Grow: *grow}
+				Seed: *seed*7 + int64(i), MaxSeg: []uint32{1024, 4096, 1 << 20}[rng.Intn(3)], Grow: *grow,
+				SyncW: *syncw && rng.Intn(2) == 0, HoldBG: *holdBG}
+			if *holdBG {
+				o.BG, o.CloseMid = true, true
+			}
 			if *grow {
 				// enough keys of one hash class that buckets overflow and split while the history runs
 				o.Keys = ks.InClass(2, uint32(i), *nkeys)
